@@ -103,7 +103,8 @@ class SAnyObj:
 
     def hm_getattr(self, interp, name, node):
         from .interp import Builtin
-        return Builtin(f'{self.name}.{name}', lambda i, args, kwargs, n: ())
+        from .builtins_model import ListIter
+        return Builtin(f'{self.name}.{name}', lambda i, args, kwargs, n: ListIter([]))
 
     def __repr__(self):
         return f'<anyobj {self.name}>'
